@@ -165,14 +165,19 @@ def run(ck, ctx):
         a = b = None
         if is_ext_call(eff, "numpy.maximum", "numpy.fmax"):
             a, b = eff.args[1], eff.args[2]
-        elif is_ext_call(eff, "numpy.where") and len(eff.args) == 4 and eff.args[1].op == "Compare" and \
-                eff.args[1].attr in ("GtE", "Gt", "Lt", "LtE"):
+        elif is_ext_call(eff, "numpy.where") and len(eff.args) == 4:
+            # where(c, x, y) is the larger of x and y when c says "x is the larger one", in any spelling of c
             c, x, y = eff.args[1:4]
-            l, r = c.args
-            if c.attr in ("GtE", "Gt") and g.same(l, x) and g.same(r, y):
-                a, b = x, y
-            elif c.attr in ("Lt", "LtE") and g.same(l, y) and g.same(r, x):
-                a, b = x, y
+            neg = False
+            while c.op == "UnaryOp" and c.attr in ("Invert", "Not"):
+                c, neg = c.args[0], not neg
+            if c.op == "Compare" and c.attr in ("GtE", "Gt", "Lt", "LtE"):
+                opn = {"GtE": "Lt", "Gt": "LtE", "Lt": "GtE", "LtE": "Gt"}[c.attr] if neg else c.attr
+                l, r = c.args
+                if opn in ("GtE", "Gt") and g.same(l, x) and g.same(r, y):
+                    a, b = x, y
+                elif opn in ("Lt", "LtE") and g.same(l, y) and g.same(r, x):
+                    a, b = x, y
         ck.ob("R08.4", "effective angle == max(enhanced angle, intrinsic angle)", a is not None, eff, func,
               g.show(eff, 3))
         if a is None:
@@ -248,8 +253,14 @@ def run(ck, ctx):
                       f"constant {cz} where {pr.show(reg)[:160]}")
             else:
                 imp = pr.implies(reg, switch)
+                # the value these events get: a selection by the switch inside it (log(where(bright, x, 1)) taken
+                # only where bright) is read in this region
+                Pc = PolyFacet(I, opaque_ids={numPEs.id}, gather_transparent=True)
+                if imp and imp[0]:
+                    Pc.cell = (pr, {switch[1]: True})
+                envc = {"n": Pc.of(numPEs), "T": Pc.of(thr_n)}
                 ck.ob("R08.4", "above the switch the log-enhancement is ln(numPEs / photo_electron_threshold)",
-                      Pn.equal(Pn.of(val), Pn.ref("log(n/T)", envn)), val, func, Pn.show(Pn.of(val))[:200])
+                      Pc.equal(Pc.of(val), Pc.ref("log(n/T)", envc)), val, func, Pc.show(Pc.of(val))[:200])
                 ck.ob("R08.4", "the enhancement applies exactly when numPEs / threshold > 2", bool(imp and imp[0]),
                       val, func, pr.show(reg)[:200])
         cov = pr.tautology(("or",) + tuple(reg for reg, _v in regs))
